@@ -44,11 +44,9 @@ def log(*a):
 # ------------------------------------------------------------------------------------------ build + gates
 def ensure_build():
     os.makedirs(BUILD, exist_ok=True)
-    with open(os.path.join(BUILD, ".lock"), "w") as lk:
-        fcntl.flock(lk, fcntl.LOCK_EX)
-        t0 = time.time()
-        r = subprocess.run([os.path.join(ROOT, "tools", "build.sh")], capture_output=True, text=True, timeout=3400)
-        return r.returncode == 0, (r.stdout + r.stderr)[-4000:], time.time() - t0
+    t0 = time.time()   # tools/build.sh serialises itself with flock
+    r = subprocess.run([os.path.join(ROOT, "tools", "build.sh")], capture_output=True, text=True, timeout=3400)
+    return r.returncode == 0, (r.stdout + r.stderr)[-4000:], time.time() - t0
 
 
 def strip_comments(src: str) -> str:
@@ -98,29 +96,44 @@ def grep_gate():
     return bad
 
 
+def props_files(prop_id: str):
+    """Props/<id>.v plus continuation files Props/<id>b.v, <id>c.v ..."""
+    d = os.path.join(COQ, "Props")
+    return sorted(f[:-2] for f in os.listdir(d) if re.fullmatch(re.escape(prop_id) + r"[a-z]?\.v", f))
+
+
 def theorem_names(prop_id: str):
-    p = os.path.join(COQ, "Props", prop_id + ".v")
-    if not os.path.exists(p):
-        return []
-    src = strip_comments(open(p).read())
-    return re.findall(r"^\s*(?:Theorem|Lemma|Corollary)\s+(\w+)", src, re.M)
+    names = []
+    for mod in props_files(prop_id):
+        src = strip_comments(open(os.path.join(COQ, "Props", mod + ".v")).read())
+        names += re.findall(r"^\s*(?:Theorem|Lemma|Corollary)\s+(\w+)", src, re.M)
+    return names
 
 
 def assumption_gate(prop_id: str):
-    """Compile a file printing the assumptions of every theorem of Props/<id>.v.
+    """Compile a file printing the assumptions of every theorem of Props/<id>*.v.
     Returns (per-theorem dict name -> list of axioms or None when missing, raw log)."""
     names = theorem_names(prop_id)
-    vo = os.path.join(COQ, "Props", prop_id + ".vo")
-    src = os.path.join(COQ, "Props", prop_id + ".v")
     res = {n: None for n in names}
-    if not names or not os.path.exists(vo) or os.path.getmtime(vo) < os.path.getmtime(src):
-        return res, "Props/%s.vo missing or stale" % prop_id
-    f = os.path.join(BUILD, f"assum_{prop_id}.v")
+    mods = props_files(prop_id)
+    for mod in mods:
+        vo = os.path.join(COQ, "Props", mod + ".vo")
+        src = os.path.join(COQ, "Props", mod + ".v")
+        if not os.path.exists(vo) or os.path.getmtime(vo) < os.path.getmtime(src):
+            return res, "Props/%s.vo missing or stale" % mod
+    if not names:
+        return res, "no theorems"
+    f = os.path.join(BUILD, f"assum_{prop_id}_{os.getpid()}.v")
     with open(f, "w") as fh:
-        fh.write(f"From Oak Require Import Props.{prop_id}.\nFrom Coq Require Import String.\n")
+        fh.write("From Oak Require Import " + " ".join("Props." + m for m in mods) + ".\nFrom Coq Require Import String.\n")
         for n in names:
             fh.write(f'Eval compute in "MARK {n}"%string.\nPrint Assumptions {n}.\n')
     r = subprocess.run(["coqc", "-Q", COQ, "Oak", f], capture_output=True, text=True, timeout=1200, cwd=BUILD)
+    for ext in (".v", ".vo", ".vok", ".vos", ".glob"):
+        try:
+            os.remove(f[:-2] + ext)
+        except OSError:
+            pass
     out = r.stdout
     if r.returncode != 0:
         return res, (r.stdout + r.stderr)[-2000:]
@@ -234,7 +247,7 @@ def kernel_crosscheck(prop, sample):
     """sample: list of (input text, model output text, table dict hexpre->digest). coqc must print true."""
     if not sample:
         return True, 0, ""
-    f = os.path.join(BUILD, f"kc_{prop.ID}.v")
+    f = os.path.join(BUILD, f"kc_{prop.ID}_{os.getpid()}.v")
     files = sorted({m for m in prop.RUN_MODULES})
     with open(f, "w") as fh:
         fh.write("From Oak Require Import Base.Term " + " ".join(files) + ".\nOpen Scope string_scope.\n")
@@ -249,6 +262,11 @@ def kernel_crosscheck(prop, sample):
         fh.write("Eval vm_compute in (forallb ok cases, List.length (List.filter (fun c => negb (ok c)) cases)).\n")
     r = subprocess.run(["bash", "-c", f"ulimit -s unlimited; exec coqc -Q {COQ} Oak {f}"], capture_output=True, text=True, timeout=1800, cwd=BUILD)
     ok = r.returncode == 0 and re.search(r"=\s*\(true,\s*0(%nat)?\)", r.stdout.replace("\n", " ")) is not None
+    for ext in (".v", ".vo", ".vok", ".vos", ".glob"):
+        try:
+            os.remove(f[:-2] + ext)
+        except OSError:
+            pass
     return ok, len(sample), (r.stdout + r.stderr)[-800:]
 
 
@@ -328,6 +346,18 @@ def main():
         if not isinstance(c["input"], str):
             c["input"] = to_text(c["input"])
     results = run_shards(prop_id, cases, tier, args.seed, args.jobs) if driver_ok else []
+
+    # a time-out or a dead worker on a loaded machine is not a verdict: re-run those cases alone with a long limit
+    retry = [i for i, r in enumerate(results) if r["impl"].startswith("(ImplTimeout") or r["impl"].startswith("(WorkerDied")
+             or r["model"].startswith("(WorkerDied") or r["model"].startswith("(ModelError \"64726976")]
+    if retry and len(retry) <= 200:
+        os.environ["VERIF_CASE_TIMEOUT"] = "30" if tier == "quick" else "60"
+        os.environ["VERIF_SHARD"] = "1"
+        again = run_shards(prop_id, [cases[i] for i in retry], tier, args.seed + 1, min(4, args.jobs))
+        os.environ.pop("VERIF_CASE_TIMEOUT", None)
+        os.environ.pop("VERIF_SHARD", None)
+        for i, r in zip(retry, again):
+            results[i] = r
 
     disagreements = []
     distribution = {}
